@@ -77,6 +77,9 @@ def transfers(config):
                 ["remove", "T", "B02", {"$nps": ["uint16", 300]}, {}],
                 ["aspirate", wl, "Q", ["A01"], {"$nps": ["uint8", 200]}, {}],
                 ["dispense", wl, "T", ["A01", "B01"], {"$npa": ["int8", [100, 100]]}, {}],
+                # one composition per well, some of them unknown (None)
+                ["add", "Q", ["A01", "B01", "C02"], [1.5, 2.5, 3.5], {"compositions": [{"x": 1.0}, {"$none": 1}, {"y": 1.0}]}],
+                ["dispense", wl, "P", ["A01", "B02"], [1.5, 2.5], {"compositions": [{"x": 1.0}, {"$none": 1}]}],
                 # volumes that round to 0.00 in the record are still booked
                 ["transfer", wl, "P", ["A01", "B01"], "Q", ["A01", "B01"], [0.00390625, 1.5], {}],
                 ["transfer", wl, "T", ["A02"], "U", ["A01"], [0.001953125], {}],
